@@ -94,12 +94,12 @@ def specs_for(tier, seed):
 def volume(tier, seed, tag):
     """JWS made by the daemon's own encode_kid / encode_jwk, verified by the independent oracle, judged by the spec."""
     vc = vcrypto.shared()
-    plan = {"ecdsa_p256": (6, 120), "ecdsa_p384": (4, 100), "ecdsa_p521": (4, 100), "ed25519": (3, 100), "ed448": (3, 80),
+    plan = {"ecdsa_p256": (6, 400), "ecdsa_p384": (4, 300), "ecdsa_p521": (4, 500), "ed25519": (3, 100), "ed448": (3, 80),
             "rsa2048": (1, 40), "rsa4096": (1, 10)}
     if tier == "thorough":
-        plan = {"ecdsa_p256": (40, 400), "ecdsa_p384": (30, 300), "ecdsa_p521": (30, 300), "ed25519": (20, 300),
+        plan = {"ecdsa_p256": (40, 2000), "ecdsa_p384": (30, 1000), "ecdsa_p521": (30, 400), "ed25519": (20, 300),
                 "ed448": (20, 200), "rsa2048": (4, 200), "rsa4096": (2, 60)}
-    lines, n_sig, lead = [{"e": "Reset"}], 0, 0
+    lines, n_sig, lead, lead2 = [{"e": "Reset"}], 0, 0, 0
     url = "http://ca.example/acme/thing"
     for kt, (keys, count) in plan.items():
         r = probe("jws", {"key_type": kt, "count": count, "keys": keys, "url": url, "kid": "http://ca.example/acct/K"}, timeout=900)
@@ -116,10 +116,15 @@ def volume(tier, seed, tag):
                 n_sig += 1
                 if v.get("lead_zero") and any(v["lead_zero"]):
                     lead += 1
+                if kt.startswith("ecdsa"):
+                    raw = base64.urlsafe_b64decode(m["signature"] + "=" * (-len(m["signature"]) % 4))
+                    half = len(raw) // 2
+                    if raw[:2] == b"\0\0" or raw[half:half + 2] == b"\0\0":
+                        lead2 += 1      # a component two or more bytes short of the field width
                 has_jwk = "jwk" in hdr
                 nonce = "%s-%s" % (kt, hdr["nonce"])   # the probe numbers its nonces per call
                 lines += [{"e": "CaGet", "kind": "newNonce", "rnonce": nonce, "ans": "ok"}, {"e": "NonceSet", "nonce": nonce},
-                          {"e": "PostBegin", "url": url, "cell": nonce, "poll": False}, {"e": "HttpPost", "url": url, "nonce": nonce, "cell": "none"}]
+                          {"e": "PostBegin", "url": url, "cell": nonce, "poll": False, "who": "probe"}, {"e": "HttpPost", "url": url, "nonce": nonce, "cell": "none"}]
                 first = has_jwk and not created
                 lines.append({"e": "CaPost", "delivered": True, "kind": "newAccount" if has_jwk else "other", "nonce": nonce, "state": "fresh",
                               "url_ok": hdr.get("url") == url, "flattened": set(m.keys()) == {"protected", "payload", "signature"},
@@ -141,7 +146,7 @@ def volume(tier, seed, tag):
     if r["hard_errors"] or r["unmatched"] is not None:
         raise ToolError("TLC failed on the JWS volume trace: %s %s (%s)" % (r["hard_errors"][:2], r["unmatched"], r["out_path"]))
     bad = [(labs, lines[ln - 1]) for ln, labs in r["bad"] if not (labs == ["C04_KidIsAccountUrl"])]
-    return {"signatures": n_sig, "ecdsa_with_leading_zero_component": lead, "plan": plan, "events": len(lines)}, bad, path
+    return {"signatures": n_sig, "ecdsa_with_leading_zero_component": lead, "ecdsa_with_component_two_bytes_short": lead2, "plan": plan, "events": len(lines)}, bad, path
 
 
 def run(ctx):
